@@ -1,6 +1,6 @@
 (* Corr/C07.v — ParallelInterface and the generic buses driven through their public API: model vs
    implementation; the Coq sampler run on the implementation's own pin log. *)
-Require Import Model.Base Model.Events Model.Parallel Corr.Common.
+Require Import Model.Base Model.Events Model.Parallel Model.Fault Corr.Common.
 Open Scope Z_scope.
 
 Inductive pcall :=
@@ -23,32 +23,8 @@ Definition event_of (cl : pcall) : event :=
    completed set_value calls left — recomputed by replaying the truncated log *)
 Definition err_of_op (o : l2op) : ierr := match o with OPin _ _ => ParBus | ODc _ => ParDc | _ => ParWr end.
 
-(* every op of a call annotated with the cache value once that op has returned successfully
-   (inside set_value the cache is cleared until the last pin has been written) *)
-Definition annot_word (w : nat) (last : option Z) (x : Z) : list (l2op * option Z) * option Z :=
-  let '(pins, l1) := bus_set_value w last x in
-  ((OWr false, last) :: combine pins (repeat None (length pins - 1) ++ [l1]) ++ [(OWr true, l1)], l1).
-Fixpoint annot_words (w : nat) (last : option Z) (ws : list Z) : list (l2op * option Z) * option Z :=
-  match ws with
-  | [] => ([], last)
-  | x :: r => let '(a1, l1) := annot_word w last x in
-              let '(a2, l2) := annot_words w l1 r in (a1 ++ a2, l2)
-  end.
 Definition annot_call (w : nat) (last : option Z) (cl : pcall) : list (l2op * option Z) :=
-  match cl with
-  | PCmd op args =>
-      let '(a1, l1) := annot_word w last op in
-      let '(a2, _) := annot_words w l1 args in
-      (ODc false, last) :: a1 ++ (ODc true, l1) :: a2
-  | PPx px => fst (annot_words w last (concat px))
-  | PRep p c =>
-      if (c =? 0) || (Z.of_nat (length p) =? 0) then []
-      else match is_same p with
-           | Some x => let '(a1, l1) := annot_word w last x in
-                       a1 ++ map (fun o => (o, l1)) (strobes (c * Z.of_nat (length p) - 1))
-           | None => fst (annot_words w last (concat (repeat p (Z.to_nat c))))
-           end
-  end.
+  fst (annot_event w last (event_of cl)).
 
 Definition run_call (md : mode) (w : nat) (last : option Z) (k : Z) (cl : pcall) : res * list l2op * option Z :=
   let '(ops, l', o) := par_event true md w last (event_of cl) in
